@@ -42,6 +42,9 @@ pub struct Rec {
     pub viol_detail_cap: u64,
     /// appended to every violation detail (fuzz mode: where the decision tape is stored)
     pub detail_suffix: String,
+    /// corpus replay: every marker written while a tape runs names the TAPE index (so that the
+    /// supervisor restarts after the tape that killed the worker)
+    pub marker_case_override: Option<u64>,
 }
 
 impl Rec {
@@ -64,6 +67,7 @@ impl Rec {
             sample_cap: 3,
             viol_detail_cap: 3,
             detail_suffix: String::new(),
+            marker_case_override: None,
         }
     }
 
@@ -145,6 +149,7 @@ impl Rec {
     /// Tell the supervisor which case is about to run (survives an abort of this process).
     pub fn case_marker(&mut self, case: u64, what: &str) {
         use std::os::unix::fs::FileExt;
+        let case = self.marker_case_override.unwrap_or(case);
         if self.marker_file.is_none() {
             if let Some(p) = &self.marker_path {
                 self.marker_file = File::create(p).ok();
